@@ -262,6 +262,7 @@ func ruleAccessors(c *Ctx, r *Repo, r1, r2, r3 string) {
 	tp := r.Pkg("template")
 	info := tp.TypesInfo
 	ruleNillable(c, r, r3)
+	ruleBracketLists(c, r, r1)
 	const name = "P.Name<(template.Param).Name>()"
 	const ts = "P.TypeString<(template.Param).TypeString>()"
 	lists := []struct{ fn, ranged, elem string }{
@@ -839,6 +840,27 @@ func ruleTypeParams(c *Ctx, r *Repo, rule string) {
 		})
 	}
 	c.Check(ok && sized, rule, "typeParams|index-for-index", r.Pos(fd.Pos()), "type parameter i <- tparams.At(i) with its own name and constraint", "typeParams does not reproduce type parameter i from tparams.At(i) (name and constraint) for every i < tparams.Len()")
+	// the only early success is "no type parameter list"; a non-nil list always reaches the loop
+	// (mechanical-mutation finding: the negated nil test drops the type parameters of every generic interface)
+	paths, _ := enumerateFunc(info, fd)
+	okEarly := len(paths) > 0
+	whyEarly := ""
+	for _, p := range paths {
+		if p.Exit != "return" || len(p.Ret) != 2 || p.Ret[1] != "nil" || hasStep(p, "loop") > 0 {
+			continue
+		}
+		isNil, known := false, false
+		for _, a := range p.Atoms {
+			if a.Expr == "ARG1 == nil" {
+				isNil, known = a.Val, true
+			}
+		}
+		if !known || !isNil {
+			okEarly = false
+			whyEarly = p.String()
+		}
+	}
+	c.Check(okEarly, rule, "typeParams|early-return", r.Pos(fd.Pos()), "only a nil type-parameter list yields no type parameters", "typeParams returns successfully without walking a non-nil type-parameter list: the type parameters of generic interfaces are dropped: "+whyEarly)
 }
 
 func typesExprOfMake(fd *ast.FuncDecl) string {
@@ -928,5 +950,128 @@ func ruleNillable(c *Ctx, r *Repo, rule string) {
 		for _, k := range []string{"*types.Named", "*types.Alias", "*types.TypeParam"} {
 			want(k, "template.nillable(ARG0.("+k+").Underlying())", "template.nillable(ARG0.Underlying())", "template.nillable(ARG0.("+k+"))")
 		}
+	}
+}
+
+// ruleBracketLists (R14.1, added after the mechanical-mutation sweep): Interface.TypeConstraint,
+// TypeConstraintTest and TypeInstantiation, which engine T models as "" for a non-generic interface and
+// "[" + elem(0) + ", " + elem(1) + .. + "]" otherwise. The Go code accumulates a string in a loop; the loop
+// body is enumerated with the accumulator, the index and the element named, and every path must append
+// exactly the separator (for every element but the first) followed by the documented element text.
+func ruleBracketLists(c *Ctx, r *Repo, rule string) {
+	tp := r.Pkg("template")
+	info := tp.TypesInfo
+	const nm = `template_funcs.Exported(P.Name<(template.Param).Name>())`
+	const ts = `P.TypeString<(template.Param).TypeString>()`
+	table := []struct{ fn, elem string }{
+		{"Interface.TypeConstraint", nm + ` + " " + ` + ts},
+		{"Interface.TypeInstantiation", nm},
+	}
+	for _, row := range table {
+		fd := FuncDecl(tp, row.fn)
+		if fd == nil {
+			c.Fail(rule, row.fn+"|missing", "template/interface.go", row.fn+" not found")
+			continue
+		}
+		c.Func(funcKey(tp, fd))
+		var rs *ast.RangeStmt
+		for _, s := range fd.Body.List {
+			if x, ok := s.(*ast.RangeStmt); ok && rs == nil {
+				rs = x
+			}
+		}
+		d := newDT(info)
+		if rs == nil {
+			// "[" + strings.Join(<list>, ", ") + "]" around a list of the documented elements is not modelled here
+			c.Fail(rule, row.fn+"|shape", r.Pos(fd.Pos()), row.fn+" does not accumulate its result in a loop over the type parameters (shape not recognised)")
+			continue
+		}
+		start := d.envBefore(seedEnv(d, fd), fd.Body.List, rs)
+		ranged := d.canon(start, rs.X)
+		// the accumulator: the string variable the body assigns and the function returns
+		var acc types.Object
+		ast.Inspect(rs.Body, func(n ast.Node) bool {
+			if as, ok := n.(*ast.AssignStmt); ok && len(as.Lhs) == 1 {
+				if id, ok := as.Lhs[0].(*ast.Ident); ok && info.Uses[id] != nil && acc == nil {
+					acc = info.Uses[id]
+				}
+			}
+			return true
+		})
+		if acc == nil {
+			c.Fail(rule, row.fn+"|shape", r.Pos(fd.Pos()), row.fn+": no accumulator variable in the loop")
+			continue
+		}
+		open := start.env[acc]
+		start.env[acc] = "ACC"
+		if k, ok := rs.Key.(*ast.Ident); ok && info.Defs[k] != nil {
+			start.env[info.Defs[k]] = "IDX"
+		}
+		if v, ok := rs.Value.(*ast.Ident); ok && info.Defs[v] != nil {
+			start.env[info.Defs[v]] = "P"
+		}
+		d.paths = nil
+		d.stmts(start, rs.Body.List, func(p *dtPath) { d.finish(p, "end") })
+		okBody := len(d.paths) > 0
+		why := ""
+		sawFirst, sawLater := false, false
+		for _, p := range d.paths {
+			first, known := false, false
+			for _, a := range p.Atoms {
+				switch a.Expr {
+				case "IDX == 0":
+					first, known = a.Val, true
+				case "IDX > 0", "0 < IDX":
+					first, known = !a.Val, true
+				default:
+					okBody = false
+					why = "the loop decides on " + a.Expr
+				}
+			}
+			got := p.env[acc]
+			wantFirst := "ACC + " + row.elem
+			wantLater := `ACC + ", " + ` + row.elem
+			switch {
+			case p.Exit != "end" && p.Exit != "continue":
+				okBody, why = false, "a round leaves the loop ("+p.Exit+")"
+			case !known:
+				okBody, why = false, "a round does not distinguish the first element from the later ones (the separator would be missing or leading): appends "+got
+			case first:
+				sawFirst = true
+				if got != wantFirst {
+					okBody, why = false, "the first element is rendered as "+got+", documented "+wantFirst
+				}
+			default:
+				sawLater = true
+				if got != wantLater {
+					okBody, why = false, "a later element is rendered as "+got+", documented "+wantLater
+				}
+			}
+		}
+		if okBody && !(sawFirst && sawLater) {
+			okBody, why = false, "first/later cases incomplete"
+		}
+		c.Check(okBody && ranged == "RECV.TypeParams" && open == `"["`, rule, row.fn+"|table", r.Pos(fd.Pos()), "\"[\" + elements joined by \", \"", fmt.Sprintf("%s: %s (ranged %s, opened with %s); documented: \"[\" + the type parameters' %s joined by \", \" + \"]\"", row.fn, why, ranged, open, row.elem))
+		// around the loop: "" for no type parameters, the accumulator + "]" otherwise
+		paths, _ := enumerateFunc(info, fd)
+		okFrame := len(paths) > 0
+		for _, p := range paths {
+			if p.Exit != "return" || len(p.Ret) != 1 {
+				okFrame = false
+				continue
+			}
+			empty, known := false, false
+			for _, a := range p.Atoms {
+				if v, ok := lenAtom(a.Expr, "builtin.len(RECV.TypeParams)", 0); ok {
+					empty, known = v == a.Val, true
+				}
+			}
+			if known && empty {
+				okFrame = okFrame && p.Ret[0] == `""`
+			} else {
+				okFrame = okFrame && strings.HasSuffix(p.Ret[0], `+ "]"`) && !strings.Contains(p.Ret[0], `"]" +`)
+			}
+		}
+		c.Check(okFrame, rule, row.fn+"|frame", r.Pos(fd.Pos()), "\"\" without type parameters, closed with \"]\" otherwise", row.fn+" does not return \"\" for an interface without type parameters and the bracketed list otherwise")
 	}
 }
